@@ -11,6 +11,7 @@ import (
 	"fmt"
 	"io"
 	"log"
+	"strings"
 	"testing"
 	"time"
 
@@ -166,84 +167,116 @@ func TestVerifEnumC15Close(t *testing.T) {
 	log.SetOutput(io.Discard)
 	r := en.New()
 	defer r.Done()
-	r.Begin("conn-close", "SnowflakeConn.Close x {once, twice, three times, twice concurrently} on a real session with no proxy available: returns within a 60 s watchdog (re-run alone before it counts), no panic")
-	if !r.Shard0() {
-		return
-	}
-	for _, mode := range []string{"once", "twice", "thrice", "concurrent"} {
-		r.Case("close|"+mode, true)
-		attempt := func() (string, string) {
-			peers, err := NewPeers(errTongue{1})
-			if err != nil {
-				return "setup", err.Error()
+	r.Begin("conn-close", "SnowflakeConn.Close x {once, twice, three times, twice concurrently} x state of the session when Close is called {healthy, smux session already dead, stream already closed, packet conn already closed, collection already ended} on a real session with no proxy available: returns within a 60 s watchdog (re-run alone before it counts), no panic; afterwards the collection is stopped (Melted), no peer is held, the smux session and the packet conn are closed")
+	pres := []string{"healthy", "session-dead", "stream-closed", "pconn-closed", "collection-ended"}
+	for _, pre := range pres {
+		for _, mode := range []string{"once", "twice", "thrice", "concurrent"} {
+			if !r.Mine() {
+				continue
 			}
-			go connectLoop(peers)
-			pconn, sess, err := newSession(peers)
-			if err != nil {
-				return "setup", err.Error()
-			}
-			stream, err := sess.OpenStream()
-			if err != nil {
-				return "setup", err.Error()
-			}
-			conn := &SnowflakeConn{Stream: stream, sess: sess, pconn: pconn, snowflakes: peers}
-			done := make(chan string, 4)
-			closer := func() {
-				p, val, stack := en.Try(func() { conn.Close() })
-				if p {
-					done <- "panic@" + en.PanicSite(stack) + "|" + val + " " + stack
-				} else {
-					done <- ""
+			mode := mode + "/" + pre
+			r.Case("close|"+mode, true)
+			attempt := func() (string, string) {
+				peers, err := NewPeers(errTongue{1})
+				if err != nil {
+					return "setup", err.Error()
 				}
-			}
-			n := map[string]int{"once": 1, "twice": 2, "thrice": 3, "concurrent": 2}[mode]
-			for i := 0; i < n; i++ {
-				if mode == "concurrent" {
-					go closer()
-				} else {
-					go closer()
-					select {
-					case res := <-done:
-						if res != "" {
-							return "panic", res
-						}
-					case <-time.After(60 * time.Second):
-						return "hang", fmt.Sprintf("Close call %d did not return within 60 s", i+1)
+				go connectLoop(peers)
+				pconn, sess, err := newSession(peers)
+				if err != nil {
+					return "setup", err.Error()
+				}
+				stream, err := sess.OpenStream()
+				if err != nil {
+					return "setup", err.Error()
+				}
+				conn := &SnowflakeConn{Stream: stream, sess: sess, pconn: pconn, snowflakes: peers}
+				switch pre {
+				case "session-dead":
+					sess.Close() // what the keep-alive timeout does after ten minutes without a proxy
+				case "stream-closed":
+					stream.Close()
+				case "pconn-closed":
+					pconn.Close()
+				case "collection-ended":
+					peers.End()
+				}
+				done := make(chan string, 4)
+				closer := func() {
+					p, val, stack := en.Try(func() { conn.Close() })
+					if p {
+						done <- "panic@" + en.PanicSite(stack) + "|" + val + " " + stack
+					} else {
+						done <- ""
 					}
 				}
-			}
-			if mode == "concurrent" {
+				n := map[string]int{"once": 1, "twice": 2, "thrice": 3, "concurrent": 2}[strings.Split(mode, "/")[0]]
+				concurrent := strings.HasPrefix(mode, "concurrent")
 				for i := 0; i < n; i++ {
-					select {
-					case res := <-done:
-						if res != "" {
-							return "panic", res
+					if concurrent {
+						go closer()
+					} else {
+						go closer()
+						select {
+						case res := <-done:
+							if res != "" {
+								return "panic", res
+							}
+						case <-time.After(60 * time.Second):
+							return "hang", fmt.Sprintf("Close call %d did not return within 60 s", i+1)
 						}
-					case <-time.After(60 * time.Second):
-						return "hang", "a concurrent Close call did not return within 60 s"
 					}
 				}
+				if concurrent {
+					for i := 0; i < n; i++ {
+						select {
+						case res := <-done:
+							if res != "" {
+								return "panic", res
+							}
+						case <-time.After(60 * time.Second):
+							return "hang", "a concurrent Close call did not return within 60 s"
+						}
+					}
+				}
+				// what Close promises, read off the state once every call has returned
+				select {
+				case <-peers.Melted():
+				default:
+					return "post", "collection-not-stopped|Close returned but the snowflake collection has not been ended (Melted is open): connectLoop keeps going to the broker"
+				}
+				if c := peers.Count(); c != 0 {
+					return "post", fmt.Sprintf("peers-held|Close returned but %d peer(s) are still held", c)
+				}
+				if !sess.IsClosed() {
+					return "post", "session-open|Close returned but the smux session is still open"
+				}
+				if _, err := pconn.WriteTo([]byte{0}, dummyAddr{}); err == nil {
+					return "post", "pconn-open|Close returned but the packet conn still accepts packets (its dial loop is still running)"
+				}
+				return "", ""
 			}
-			return "", ""
-		}
-		kind, msg := attempt()
-		if kind == "hang" {
-			// never believe a single wall-clock observation
-			for i := 0; i < 2 && kind == "hang"; i++ {
-				kind, msg = attempt()
+			kind, msg := attempt()
+			if kind == "hang" {
+				// never believe a single wall-clock observation
+				for i := 0; i < 2 && kind == "hang"; i++ {
+					kind, msg = attempt()
+				}
 			}
-		}
-		switch kind {
-		case "panic":
-			site := msg
-			if i := len("panic@"); len(msg) > i {
-				site = msg[:indexOr(msg, '|')]
+			switch kind {
+			case "panic":
+				site := msg
+				if i := len("panic@"); len(msg) > i {
+					site = msg[:indexOr(msg, '|')]
+				}
+				r.Fail("conn-close:"+site, "SnowflakeConn.Close ("+mode+") panicked: "+msg, mode)
+			case "hang":
+				r.Fail("conn-close:hang", msg, mode)
+			case "post":
+				r.Fail("conn-close:"+msg[:indexOr(msg, '|')], msg[indexOr(msg, '|')+1:], mode)
+			case "setup":
+				r.Incomplete("could not build a session: " + msg)
 			}
-			r.Fail("conn-close:"+site, "SnowflakeConn.Close ("+mode+") panicked: "+msg, mode)
-		case "hang":
-			r.Fail("conn-close:hang", msg, mode)
-		case "setup":
-			r.Incomplete("could not build a session: " + msg)
 		}
 	}
 }
